@@ -204,6 +204,16 @@ theorem mutation_delivers_to_registered {p : Prog} {hh : Hist} (e ty : Nat) {s s
   obtain ⟨cs, a, b⟩ := mutation_dispatch s' e ty
   exact ⟨cs, a, by rw [b, entity_listeners_stable e _ h1 ha, typewide_stable_run .mut ty h2]⟩
 
+/-- **One run per registration, also for one reactor registered twice**: a reactor that holds both an entity-scoped and a
+    type-wide registration for the mutated component (seeded S04, X01: "already queued, skip") is delivered the mutation
+    once per registration — the number of deliveries to `sys` is the number of its entity-scoped entries plus the number of
+    its type-wide entries. -/
+theorem mutation_deliveries_per_registration (s : St) (e ty sys : Nat) :
+    ∃ cs, applyCmd s (.mutReact e ty) = s.push [.flush, .batch cs] ∧
+      (targets cs).count sys = (entListeners s e ⟨.mut, ty⟩).count sys + ((s.tbl .mut ty).map (·.sys)).count sys := by
+  obtain ⟨cs, a, b⟩ := mutation_dispatch s e ty
+  exact ⟨cs, a, by rw [b, List.count_append]⟩
+
 /-- **Insertion, along an execution** (when the component really was inserted). -/
 theorem insertion_delivers_to_registered {p : Prog} {hh : Hist} (e ty : Nat) {s s' : St}
     (h1 : QuietRun p hh (fun x => (∃ c, nextCmd x = some c ∧ touchesEnt e c) ∨ x.alive e = false) s s') (ha : s'.alive e = true)
